@@ -44,9 +44,9 @@ def refparse(src):
     try:
         return ast.parse(src), False
     except SyntaxError:
-        if src.endswith('\\\n'):
+        if src.endswith('\\\n') or src.endswith('\\'):
             try:
-                return ast.parse(src + '\n'), True
+                return ast.parse(src + ('\n' if src.endswith('\n') else '\n\n')), True
             except SyntaxError:
                 return None, True
         return None, False
